@@ -100,6 +100,9 @@ pub struct NoteV {
     /// created by a wallet shielding transaction: max mined height of its transparent inputs
     /// (None inside Some = an input is not mined as far as the wallet knows)
     pub shield_src: Option<Option<u32>>,
+    /// spent by a transaction of a rewound block that the wallet still treats as unexpired
+    /// (diagnostics only: the wallet may legitimately refuse such a note)
+    pub spent_orphan: bool,
 }
 
 #[derive(Clone, Debug)]
@@ -170,6 +173,7 @@ impl Model {
                             lock: self.locks.get(&InKey::Note(n.key)).copied(),
                             wallet_tx: self.wallet_txids.contains(&tx.txid),
                             shield_src: None,
+                            spent_orphan: false,
                         },
                     );
                 }
@@ -180,6 +184,20 @@ impl Model {
                 for k in &tx.spends {
                     if let Some(n) = notes.get_mut(k) {
                         n.spent_mined = true;
+                    }
+                }
+            }
+        }
+        for uid in &w.ever_scanned {
+            for tx in &sim.all_blocks[uid].txs {
+                if tx_height.contains_key(&tx.txid) {
+                    continue;
+                }
+                if w.observed.get(&tx.txid).map_or(false, |h| h + 40 >= target) {
+                    for k in &tx.spends {
+                        if let Some(n) = notes.get_mut(k) {
+                            n.spent_orphan = true;
+                        }
                     }
                 }
             }
